@@ -58,7 +58,7 @@ def shapes(tier):
                  b"${}", b"s = ${", b"+", b"+=", b"=", b"{", b"}", b"(", b")", b",", b"#", b"//", b"/**/", b"#\n#\n/**/ //\ni = 1", b"\r\n\r\n", b"\x00", b"i = \x00 1",
                  b"s = \"a\x00b\"", b"# c\x00d\ni = 1", b"/* a\x00b */ i = 2", b"s = 'a\x00b'", b"\xff\xfe\x00\x01", b"i = 1 \x1a", b"include(\"/dev/null\")",
                  b'include("/")', b'include("nosuch")', b'include("self.conf")', b'include("/dev/null", "x")', b"include", b"include(", b'include("~nouser/x")',
-                 b'include("")', b"sec sec sec", b"m m m { {", b"i = = 1", b"l += += 1", b"s = \"\\", b"s = \"\\x\"", b"s = \"\\8\"", b"s = \"\\400\"",
+                 b'include("")', b'include("my%20settings.conf")', b'include("%s%s%s%n.conf")', b'include("/tmp/%n%n%s")', b'include("100%done/")', b"sec sec sec", b"m m m { {", b"i = = 1", b"l += += 1", b"s = \"\\", b"s = \"\\x\"", b"s = \"\\8\"", b"s = \"\\400\"",
                  b"s = \"${\"", b"s = \"${X\"", b"s = \"${X:-\"", b"s = ${X:-${Y}}", b"m \"\" { }", b"\"\" = 1", b"'' = 1"):
         s.append(("frag", frag))
     # option names written as paths (the parser resolves every name with the path resolver): quoted titles with
